@@ -167,10 +167,12 @@ func runC06(c *core.Ctx) {
 						}
 						child := &gen.Nest{Level: 1, Signer: fast[2], Prep: fast[3], Sub: fast[4], Final: fast[5], Inspect: insp("inner")}
 						rootN := &gen.Nest{Level: 0, Signer: fast[0], Prep: fast[1], Sub: fast[2], Final: fast[3], Child: child, Inspect: insp("outer")}
+						// through the hook: the builder treats an empty Expires field as "use the default"
+						setExp := func(l *intoto.Layout) { l.Expires = exp }
 						if shape == "expired-sublayout" {
-							child.Expires = exp
+							child.LayoutHook = setExp
 						} else {
-							rootN.Expires = exp
+							rootN.LayoutHook = setExp
 						}
 						rootN.Build()
 						md, err = rootN.WriteLinks(linkDir, dsse)
